@@ -79,6 +79,7 @@ impl Wake for TaskWaker {
     }
 
     fn wake_by_ref(self: &Arc<Self>) {
+        verif_point!("qe.wake");
         // This send can fail if the executor has been dropped.
         // In which case, nothing to do
         let _ = self.sender.send(self.task_id);
@@ -108,8 +109,10 @@ impl QueuingExecutor {
                 did_some_work = true;
             }
             while let Ok(task_id) = self.ready_queue.try_recv() {
+                verif_point!("qe.ready_recv");
                 match self.run_task(task_id) {
                     RunTask::Unavailable => {
+                        verif_point!("qe.unavailable");
                         // We were unable to run the task as it is (presumably) being run on
                         // another thread. We re-queue the task for 'later' and do NOT set
                         // `did_some_work = true`. That way we will keep looping and doing work
@@ -144,6 +147,7 @@ impl QueuingExecutor {
 
         // free the mutex so other threads can make progress
         drop(lock);
+        verif_point!("qe.task_taken");
 
         let waker = Arc::new(TaskWaker {
             task_id,
@@ -154,6 +158,7 @@ impl QueuingExecutor {
 
         // poll the task
         if task.as_mut().poll(context).is_pending() {
+            verif_point!("qe.after_poll_pending");
             // If it's still pending, put the future back in the slot
             self.tasks
                 .lock()
@@ -163,10 +168,21 @@ impl QueuingExecutor {
                 .replace(task);
             RunTask::Suspended
         } else {
+            verif_point!("qe.after_poll_ready");
             // otherwise the future is completed and we can free the slot
             self.tasks.lock().unwrap().remove(*task_id as usize);
             RunTask::Completed
         }
+    }
+}
+
+#[cfg(feature = "crux_verif")]
+impl QueuingExecutor {
+    // (live tasks, ready queue length, spawn queue length)
+    pub(crate) fn verif_stats(&self) -> (usize, usize, usize) {
+        let live_tasks = self.tasks.lock().expect("Task slab poisoned").len();
+
+        (live_tasks, self.ready_queue.len(), self.spawn_queue.len())
     }
 }
 
